@@ -312,10 +312,15 @@ theorem chkC11_ok (tb : Tabs) (m : Mon) (s : State) (op : Op) (hl : Link m s) (h
 theorem chkC17_ok (tb : Tabs) (m : Mon) (s : State) (op : Op) (hl : Link m s) (hw : WF tb s) :
     chkC17 (m.step tb.cfg op) (recOf tb.cfg s op) = true := by
   have h := (link_step tb m s op hl hw).set
+  have hset : ((step tb.cfg s op).1.set == (m.step tb.cfg op).set) = true := by
+    rw [h]; exact beq_self_eq_true _
+  have hframe : (!op.isSetter || (({ Obs.ofState (step tb.cfg s op).1 with set := (Obs.ofState s).set } : Obs) == Obs.ofState s &&
+      ((step tb.cfg s op).2.1.map EvObs.ofEvent).isEmpty)) = true := by
+    cases op <;> simp [Op.isSetter, step, Obs.ofState]
   unfold chkC17
-  show ((step tb.cfg s op).1.set == (m.step tb.cfg op).set) = true
-  rw [h]
-  exact beq_self_eq_true _
+  show (((step tb.cfg s op).1.set == (m.step tb.cfg op).set) && _) = true
+  rw [hset, Bool.true_and]
+  exact hframe
 
 /-! ## C15 -/
 
